@@ -3,19 +3,21 @@
 
 def jobs(tier):
     return [dict(name='dump-load-stream', harness='c05_roundtrip.c', entry='main_c05', defines={}, timeout=900,
-                 require_tags={'end': 64}, validate=6)]
+                 require_tags={'end': 64}, validate=6),
+            dict(name='kernel-offset-narrowing', harness='k_kernels.c', entry='main_kernel', defines=dict(KERNEL=3), timeout=600,
+                 env=dict(LLSYM_Z3_TIMEOUT_MS='5000', LLSYM_CVC5_TIMEOUT_MS='120000'), require_tags={'end': 1, 'narrow': 1, 'wide': 1})]
 
 
 BOUNDS = {
     'quick': 'table collections with 0 or 1-3 rows per table (every table kind), all fixed-width fields free 32-bit / '
              'integer-valued doubles, one double slot NaN / +inf / UNKNOWN_TIME by choice, ragged columns with empty and '
              '1-2 byte rows of symbolic bytes, top-level metadata/schema/time-units/reference-sequence symbolic bytes, '
-             'with and without (free-valued) index arrays; reference sequence with and without data; three objects back-to-back on one stream, seekable or not, then EOF',
+             'with and without (free-valued) index arrays; reference sequence with and without data; three objects back-to-back on one stream, seekable or not, then EOF; offset kernel: write_offset_col -> kastore -> cast_offset_array for a 2-row ragged column whose offsets are free 64-bit values (32-bit narrowing, 64-bit pass-through, FORCE_OFFSET_64)',
     'thorough': 'as quick',
 }
 OUTSIDE = ['asdict/fromdict, pickle and the Python assert_equals messages (CPython API / numpy)',
            'path-based dump/load (thin wrappers around the FILE* variants)',
-           '64-bit offset columns (need > 4 GiB ragged data)', 'I/O errors other than end-of-file']
+           'whole-collection dumps with 64-bit offset columns (need > 4 GiB ragged data; only the offset-column kernel sees them)', 'I/O errors other than end-of-file']
 ASSUMPTIONS = ['FILE* is an in-memory byte buffer (engine stub); tsk_generate_uuid writes fixed bytes']
 MANIFEST = dict(
     text='Symbolic execution of the real tsk_table_collection_dumpf / loadf / copy / equals and kastore writer+reader '
